@@ -146,10 +146,16 @@ def install_monitors():
             m['active_after'] = [o for o in store.orders.get_active_orders(exchange, symbol) if o.is_active]
             m['orders_after'] = len(rec.orders)
 
-    def w_cfl(candle, exchange, symbol, *more, **kw):
+    def w_cfl(*args, **kw):
         rec = REC
         if rec is None:
-            return cfl(candle, exchange, symbol, *more, **kw)
+            return cfl(*args, **kw)
+        # (candle, exchange, symbol) in the repository; a variant without the candle argument is followed as well
+        strs = [a for a in args if isinstance(a, str)]
+        exchange, symbol = strs[0], strs[1]
+        candle = next((a for a in args if not isinstance(a, str)), None)
+        if candle is None:
+            candle = np.array(_minute_candle(rec), dtype=object) if _minute_candle(rec) is not None else np.zeros(6)
         from jesse.services import selectors
         p = selectors.get_position(exchange, symbol)
         pre = None
@@ -163,7 +169,7 @@ def install_monitors():
                    'leverage': getattr(p.exchange, 'futures_leverage', None), 'fee': p.exchange.fee_rate}
         rec.refs['in_liq'] = True
         try:
-            r = cfl(candle, exchange, symbol, *more, **kw)
+            r = cfl(*args, **kw)
         finally:
             rec.refs['in_liq'] = False
         if p is not None:
